@@ -186,22 +186,32 @@ impl Watch {
             for (lo, hi) in &vs.pid_free {
                 let bad = lo > hi || *lo < 1 || *hi > maxid || prev_hi.map_or(false, |p| *lo <= p + 1);
                 if bad {
-                    self.flag(&["C20"], "in-situ-representation", format!("{what}: packet id free list not sorted/disjoint/merged/in range: {:?}", vs.pid_free));
-                    return;
+                    // C20 names the representation; the run goes on with the union of the listed
+                    // intervals as the free set, so that what a malformed list does to the ids
+                    // themselves (C08) is still observed
+                    if self.deferred.is_none() {
+                        let step = self.step;
+                        self.deferred = Some(Violation { props: vec!["C20"], class: "in-situ-representation".into(), msg: format!("{what}: packet id free list not sorted/disjoint/merged/in range: {:?}", vs.pid_free), step });
+                    }
+                    break;
                 }
                 prev_hi = Some(*hi);
             }
-            // complement of free == model ids
+            // complement of the union of the free intervals == model ids
+            let mut free: Vec<(u64, u64)> = vs.pid_free.iter().map(|(l, h)| ((*l).max(1), (*h).min(maxid))).filter(|(l, h)| l <= h).collect();
+            free.sort_unstable();
             let mut used: Vec<u64> = vec![];
             let mut next = 1u64;
             let mut too_many = false;
-            for (lo, hi) in &vs.pid_free {
-                if lo - next > 4096 {
-                    too_many = true;
-                    break;
+            for (lo, hi) in &free {
+                if *lo > next {
+                    if lo - next > 4096 {
+                        too_many = true;
+                        break;
+                    }
+                    used.extend(next..*lo);
                 }
-                used.extend(next..*lo);
-                next = hi + 1;
+                next = next.max(hi + 1);
             }
             if !too_many && next <= maxid {
                 if maxid + 1 - next > 4096 {
